@@ -45,6 +45,11 @@ def units():
                          oracle=lambda rng, tier, reasons: EA.oracle(rng, tier, reasons, kinds=('sedov',)),
                          note='Sedov: energy and sound speed as assembled at the end of _run and in physical() obey the gamma law (theorems on the regenerated assignments; '
                               'the fields returned by the real solver are compared with these formulas evaluated on its own pressure and density)'))
+    import ehep_corr as EHC
+    out.append(flow.Unit('ehep', groups=['ehep'], props=['props/C03_ehep.v'], custom_corr=EHC.unit_corr,
+                         oracle=lambda rng, tier, reasons: EA.oracle(rng, tier, reasons, kinds=('ehep',)),
+                         note='escape of HE products: in every region cs^2 rho = 3 p and the CJ isentrope 256 rho_0^2 p = 27 D^2 rho^3 (theorem on the regenerated '
+                              'region formulas, vacuum edge included); e = p / (rho (gamma - 1)); region lookup outside the theorem (correspondence reads the real label)'))
     out.append(flow.Unit('eos-real-code', groups=[], props=[], oracle=EA.oracle, always_oracle=True,
                          note='EOS consistency on the real code for both Riemann drivers with different gammas on the two sides (side decided from the contact '
                               'position), Sedov, EHEP, Mader (cell averages: tolerance 1e-4 on a fine grid) and RMTV'))
